@@ -1140,6 +1140,16 @@ def exact_packet(rng, size):
     return b
 
 
+def data_pointer_packets():
+    """Accepted packets in which a later owner name is read through the TTL field / the address of an earlier record."""
+    H_ = struct.pack(">HHHHHH", 1, 0x8180, 1, 2, 0, 0) + b"\x01a\x00" + struct.pack(">HH", 1, 1)
+    r1_ttl = b"\xc0\x0c" + struct.pack(">HH", 1, 1) + b"\x01b\x00\x00" + struct.pack(">H", 4) + b"\1\2\3\4"      # TTL bytes = label "b", root
+    r2_ttl = b"\xc0\x19" + struct.pack(">HHIH", 1, 1, 5, 4) + bytes([5, 6, 7, 8])                                   # owner -> offset 25 (the TTL)
+    r1_ip = b"\xc0\x0c" + struct.pack(">HHIH", 1, 1, 60, 4) + b"\x01b\x00\x09"                              # address bytes = label "b", root
+    r2_ip = b"\xc0\x1f" + struct.pack(">HHIH", 1, 1, 5, 4) + bytes([5, 6, 7, 8])                                    # owner -> offset 31 (the address)
+    return [H_ + r1_ttl + r2_ttl, H_ + r1_ip + r2_ip]
+
+
 class HistProp(Prop):
     """Shared machinery of C08-C11: histories with an abstract message model (gen/hist.py)."""
     clauses = set()
@@ -1175,6 +1185,20 @@ class HistProp(Prop):
 
     def finish(self, i, first, bld, fam):
         return Case("h%d" % i, bld.line(first), {"family": fam, "steps": bld.steps, "a0": None})
+
+    def data_pointer_family(self, rng, k0):
+        """Known-finding class data-pointer: TTL / address writes on records whose bytes a later name is read through."""
+        out = []
+        for b in data_pointer_packets():
+            a = H.decode_bytes(b)
+            if a is None:
+                continue
+            for rep in range(3):
+                bld = H.Builder(rng, a if rep == 0 else H.decode_bytes(b), set())
+                for _ in range(3):
+                    bld.walk_op(si=0, mode="mixed")
+                out.append(self.finish(k0 + len(out), "P," + hx(b), bld, "class-data-pointer"))
+        return out
 
     def corpus_meta(self, line):
         """A corpus line carries no expectations: every operation becomes a step checked for crashes, model agreement and the object's view."""
@@ -1362,9 +1386,38 @@ class HistProp(Prop):
         except ValueError:
             return False
 
+    def data_pointer_case(self, case, op_index=None, text=None):
+        """Known-finding class: some name of the starting packet is read through bytes that are not a name (a TTL, fixed fields, an address,
+        opaque data), the history writes a TTL or an address in place, and the failure is observed at or after that write."""
+        import re
+        ops = case.line.split("\t")
+        if not ops[0].startswith("P,"):
+            return False
+
+        def writes(o):
+            o = o[2:] if o.startswith("F,") else o
+            f = o.split(",")
+            return f[0] == "W" and len(f) > 2 and any(re.match(r"^(T\d|A[0-9a-f])", a) for y in f[-1].split("/") for a in y.lstrip("*").split("."))
+        ws = [i for i, o in enumerate(ops) if i > 0 and writes(o)]
+        if not ws:
+            return False
+        if op_index is None:
+            m = re.search(r"step (\d+)", text or "")
+            if not m:
+                return False
+            op_index = 5 + 5 * int(m.group(1))
+        if op_index < ws[0]:
+            return False
+        try:
+            return bool(G.alien_pointer_targets(bytes.fromhex(ops[0][2:])))
+        except ValueError:
+            return False
+
     def oracle(self, case, io):
         w = no_crash(io)
         if w:
+            if self.data_pointer_case(case, op_index=len(io) - 1 if io else 0):
+                return "[data-pointer] an in-place TTL/address write changed bytes that a name of the packet is read through; afterwards: " + w
             if self.header_pointer_case(case, op_index=len(io) - 1 if io else 0):
                 return "[header-pointer] a header setter rewrote bytes that a name of the packet is read through; afterwards: " + w
             return "[crash] " + w + " at op %d" % (len(io) - 1 if io else -1)
@@ -1373,6 +1426,8 @@ class HistProp(Prop):
             return None
         if self.header_pointer_case(case, text=fails[0][1]):
             return "[header-pointer] a header setter rewrote bytes that a name of the packet is read through; afterwards: [%s] %s" % fails[0]
+        if self.data_pointer_case(case, text=fails[0][1]):
+            return "[data-pointer] an in-place TTL/address write changed bytes that a name of the packet is read through; afterwards: [%s] %s" % fails[0]
         known = known_classes(self.id)
         for cls, txt in fails:
             if cls not in known:
@@ -1385,6 +1440,8 @@ class HistProp(Prop):
         if self.header_pointer_case(case, op_index=len(case.line.split("\t"))):
             # the process aborts in the implementation where the model reaches a Panic site: no line-by-line comparison is possible
             return "header-pointer"
+        if self.data_pointer_case(case, op_index=len(case.line.split("\t"))):
+            return "data-pointer"
         return "divergence-unclassified"
 
     def tags(self, case, io):
@@ -1475,6 +1532,7 @@ class C08(HistProp):
                 self.random_step(rng, bld, {"opt-ttl": 1})
                 fam = "class-opt-ttl"
             cases.append(self.finish(i, first, bld, fam))
+        cases += self.data_pointer_family(rng, len(cases))
         return cases
 
 
@@ -1501,6 +1559,7 @@ class C09(HistProp):
             for _ in range(rng.randint(1, 4)):
                 self.random_step(rng, bld, {"header": 2, "insert": 4, "rename": 2, "walk": 8, "qwalk": 3, "recompute": 1, "getter": 3})
             cases.append(self.finish(i, first, bld, "effects"))
+        cases += self.data_pointer_family(rng, len(cases))
         return cases
 
 
